@@ -13,7 +13,7 @@ def OutSpec (P : Parser σ) (fs : FS) : Outcome σ → Prop
       (d.kind = .clause →
         ∃ s' body tail bad raw rest k eof, fs d.file = .file body tail bad ∧
           clauseAt body tail bad d.line = .line raw rest k eof ∧
-          P.classify s' (trimSpace raw) = .reject)
+          P.classify s' (trimSpace raw) = .reject ∧ LineStart body d.line)
   | _ => True
 
 theorem run_spec (P : Parser σ) (fs : FS) (ipath : List Name) :
@@ -44,10 +44,11 @@ theorem run_spec (P : Parser σ) (fs : FS) (ipath : List Name) :
       | abort => exact True.intro
       | reject =>
         simp only [hw]
-        refine ⟨hd, fun _ => ⟨s, body, tail, bad, raw, rest, k, eof, ?_, ?_, ?_⟩⟩
+        refine ⟨hd, fun _ => ⟨s, body, tail, bad, raw, rest, k, eof, ?_, ?_, ?_, ?_⟩⟩
         · rw [hfile]; exact hfs
         · rw [hline]; exact hcl
-        · rw [← htext]; exact hc
+        · rw [← htext.1]; exact hc
+        · rw [hline]; exact htext.2
 
 theorem run_finishes (P : Parser σ) (fs : FS) (ipath : List Name) (L : Nat) (hs : Small L fs) :
     ∀ (n : Nat) (st : List Frame) (s : σ), Inv fs st → phi L st < n →
